@@ -24,14 +24,87 @@ class SysLoop(VLoop):
         super().__init__()
         self.executor_jobs = []
 
+    dns_delay = None      # virtual seconds a (fake) gethostbyname takes; None: answered inline
+    harness_handles = []
+
     def run_in_executor(self, executor, func, *args):
         self.executor_jobs.append((getattr(func, "__qualname__", repr(func)), self._vnow))
         fut = self.create_future()
-        try:
-            fut.set_result(func(*args))
-        except Exception as e:   # noqa
-            fut.set_exception(e)
+
+        def finish():
+            if fut.done():       # (cancelled by the caller: the worker thread's result is dropped)
+                return
+            try:
+                fut.set_result(func(*args))
+            except Exception as e:   # noqa
+                fut.set_exception(e)
+        if self.dns_delay is not None and getattr(func, "__name__", "") == "gethostbyname":
+            self.harness_handles.append(self.call_later(self.dns_delay, finish))   # (stands for the worker thread)
+        else:
+            finish()
         return fut
+
+    async def create_datagram_endpoint(self, protocol_factory, local_addr=None, remote_addr=None, *, sock=None, **kw):
+        """asyncio's own behaviour for a ready-made socket, over the harness's fake sockets: the transport exists at
+        once, the caller is suspended until connection_made has been scheduled, and a cancellation while it waits
+        closes the transport (base_events.create_datagram_endpoint: `except: transport.close(); raise`)."""
+        if not isinstance(sock, FakeSocket):
+            return await super().create_datagram_endpoint(protocol_factory, local_addr, remote_addr, sock=sock, **kw)
+        protocol = protocol_factory()
+        transport = FakeSockTransport(sock, protocol)
+        waiter = self.create_future()
+        self.call_soon(protocol.connection_made, transport)
+        self.call_soon(lambda: waiter.done() or waiter.set_result(None))
+        try:
+            await waiter
+        except BaseException:
+            transport.close()
+            raise
+        return transport, protocol
+
+
+class FakeSocket:
+    """stands for socket(AF_INET, SOCK_DGRAM) in ipv8.bootstrapping.udpbroadcast.bootstrapper"""
+    instances = []
+
+    def __init__(self, *a):
+        self.closed = False
+        self.sent = 0
+        self.transport = None
+        FakeSocket.instances.append(self)
+
+    def setsockopt(self, *a):
+        pass
+
+    def bind(self, addr):
+        pass
+
+    def getsockname(self):
+        return ("0.0.0.0", 43210)
+
+    def sendto(self, data, addr):
+        if self.closed:
+            raise OSError("closed")
+        self.sent += 1
+
+    def close(self):
+        self.closed = True
+
+
+class FakeSockTransport:
+    def __init__(self, sock, protocol):
+        self.sock, self.protocol, self._closing = sock, protocol, False
+        sock.transport = self
+
+    def is_closing(self):
+        return self._closing
+
+    def close(self):
+        self._closing = True
+        self.sock.close()
+
+    def get_extra_info(self, name):
+        return self.sock if name == "socket" else None
 
 
 class FakeTransport:
@@ -1173,6 +1246,128 @@ def run_api_once(job):
 def run_api_job(job):
     try:
         res = run_api_once(job)
+        res["job"] = job
+        return res
+    except Exception:   # noqa
+        import traceback
+        return {"job": job, "crash": traceback.format_exc()[-1500:], "bad": []}
+
+
+# ========================================================================================== bootstrappers
+# Every shipped overlay class with each shipped bootstrapper class; bootstrap() is called and unload() awaited at
+# each of the first loop iterations ("start and stop right away").  Afterwards: no task, timer or socket that the
+# overlay or its bootstrapper created may be left, and a datagram on a socket that is left must not move the overlay.
+def shipped_classes():
+    T = scenario_table()
+    out = {}
+    for name, (cls, kw, script, roles, wrapper) in T.items():
+        if wrapper is None:
+            out[cls.__name__] = (cls, kw or {})
+    return out
+
+
+def make_bootstrapper(kind):
+    if kind == "UDPBroadcastBootstrapper":
+        from ipv8.bootstrapping.udpbroadcast.bootstrapper import UDPBroadcastBootstrapper
+        return UDPBroadcastBootstrapper()
+    from ipv8.bootstrapping.dispersy.bootstrapper import DispersyBootstrapper
+    return DispersyBootstrapper([("10.77.0.1", 6421), ("10.77.0.2", 6422)], [("boot1.example", 6421), ("boot2.example", 6422)])
+
+
+def run_boot_once(job):
+    from ipv8.bootstrapping.dispersy import bootstrapper as dmod
+    from ipv8.bootstrapping.udpbroadcast import bootstrapper as umod
+    cls, kw = shipped_classes()[job["cls"]]
+    with World(job["seed"]) as w:
+        FakeSocket.instances = []
+        orig_sock, orig_ghbn = umod.socket, dmod.gethostbyname
+        umod.socket = FakeSocket
+
+        def gethostbyname(host):
+            return "10.77.1.%d" % (1 + sum(host.encode()) % 200)
+        dmod.gethostbyname = gethostbyname
+        w.loop.dns_delay = 0.8
+        w.loop.harness_handles = []
+        w.stack.callback(lambda: (setattr(umod, "socket", orig_sock), setattr(dmod, "gethostbyname", orig_ghbn)))
+
+        async def main():
+            me = asyncio.current_task()
+            tgt = w.add_node("n0", cls, addr(0), **kw)
+            w.watch(tgt)
+            boot = make_bootstrapper(job["boot"])
+            tgt.bootstrappers.append(boot)
+            tgt.bootstrap()
+            for _ in range(job["iteration"]):
+                await asyncio.sleep(0)
+            w.eager = bool(job.get("eager"))
+            w.start_unload()
+            for _ in range(400):
+                if w.unload_task.done():
+                    break
+                await w.loop.advance(0.25)
+            bad = []
+            if not w.unload_task.done():
+                w.unload_task.cancel()
+                w.done_idx = len(w.events)
+                bad.append(("unload/never-returns", "unload() of %s did not return within 100 virtual seconds" % job["cls"]))
+            for _ in range(3):
+                await asyncio.sleep(0)
+            # (1) tasks and timers still alive: everything in this loop was created by the overlay or its bootstrapper
+            for t in asyncio.all_tasks(w.loop):
+                if t is not me and not t.done():
+                    co = t.get_coro()
+                    bad.append(("unload/bootstrap-task-pending/%s" % base_name(getattr(co, "__qualname__", repr(co))),
+                                "task %s is still pending after unload() of %s with %s (unload %d loop iterations after bootstrap())"
+                                % (getattr(co, "__qualname__", co), job["cls"], job["boot"], job["iteration"])))
+            for h in list(w.loop._scheduled):
+                if not h._cancelled and not any(h is x for x in w.loop.harness_handles):
+                    bad.append(("unload/bootstrap-timer-pending", "a timer (%r) is still scheduled after unload() of %s with %s"
+                                % (getattr(h, "_callback", None), job["cls"], job["boot"])))
+            # (2) sockets
+            open_now = [sk for sk in FakeSocket.instances if not sk.closed]
+            for sk in open_now:
+                bad.append(("unload/bootstrap-socket-open", "the broadcast socket opened by %s for %s is still open after unload() "
+                            "(unload %d loop iterations after bootstrap())" % (job["boot"], job["cls"], job["iteration"])))
+            w.after = post_observation(w, tgt)
+            kinds = {id(m): k for m, k in owned_managers(w, tgt)}
+            w.unfinished_after = [(m, n, f, kinds[id(m)]) for (m, n, f) in w.futs if id(m) in kinds and not f.done()]
+            w.open_after, w.probe_bad = [], []
+            late_from = w.done_idx
+            sent0 = sum(sk.sent for sk in FakeSocket.instances)
+            # (3) whatever was started keeps running; then datagrams arrive on every socket that is (or becomes) open
+            await w.loop.advance(3.0)
+            from ipv8.bootstrapping.udpbroadcast.bootstrapper import HDR_ANNOUNCE
+            for sk in FakeSocket.instances:
+                if sk.closed and sk not in open_now:
+                    continue
+                if not sk.closed and sk not in open_now:
+                    bad.append(("late/bootstrap-socket-opened", "%s opened a broadcast socket for %s after unload() returned"
+                                % (job["boot"], job["cls"])))
+                if sk.transport is not None and not sk.closed:
+                    for data in (HDR_ANNOUNCE + tgt.get_prefix(), tgt.get_prefix() + bytes([246]) + bytes(40), b"garbage"):
+                        try:
+                            sk.transport.protocol.datagram_received(data, ("10.77.9.9", 7777))
+                        except Exception as e:   # noqa
+                            w.events.append(("inject-exc", None, repr(e)))
+            await w.loop.advance(120.0)
+            w.drain_handler_log()
+            if sum(sk.sent for sk in FakeSocket.instances) > sent0:
+                bad.append(("late/send/bootstrap-socket", "%s sent beacons on its broadcast socket after unload() of %s returned"
+                            % (job["boot"], job["cls"])))
+            for k, v in judge(w, late_from):
+                bad.append((k.replace("late/send", "late/send/bootstrap") if k.startswith("late/send") else k + "/bootstrap", v))
+            seen, out = set(), []
+            for k, v in bad:
+                if k not in seen:
+                    seen.add(k)
+                    out.append((k, "%s [%s + %s, unload %d iterations after bootstrap()]" % (v, job["cls"], job["boot"], job["iteration"])))
+            return {"bad": out, "tasks_before": len(w.futs), "sockets": len(FakeSocket.instances)}
+        return w.loop.run_until_complete(main())
+
+
+def run_boot_job(job):
+    try:
+        res = run_boot_once(job)
         res["job"] = job
         return res
     except Exception:   # noqa
